@@ -1383,6 +1383,12 @@ func (up4 *UP4) modifyUP4ForwardingConfiguration(pdrs []pdr, allFARs []far, qers
 					continue
 				}
 
+				// PDRs with the same match key share one sessions entry: when they are deleted,
+				// the entry is gone after the first of them.
+				if methodType == p4.Update_DELETE && status.GetCanonicalCode() == int32(codes.NotFound) {
+					continue
+				}
+
 				return ErrOperationFailedWithReason("applying table entries to UP4", p4Error.Error())
 			}
 		}
